@@ -38,6 +38,15 @@ var (
 // The default chunk size for InstallSnapshot RPCs.
 const snapshotChunkSize = 32 * 1024
 
+// The maximum size of the log entries that a single AppendEntries RPC carries, unless
+// its first entry alone is larger. It is well below the 4 MiB that a gRPC server accepts
+// in one message by default. Besides its data, every entry is accounted for with
+// logEntryOverhead bytes, which is more than the encoding of its other fields takes.
+const (
+	maxAppendEntriesSize = 1024 * 1024
+	logEntryOverhead     = 64
+)
+
 // State represents the current state of a node.
 // A node may either be shutdown, the leader, or a followers.
 type State uint32
@@ -995,8 +1004,12 @@ func (r *Raft) AppendEntries(request *AppendEntriesRequest, response *AppendEntr
 		r.logger.Fatalf("failed to append entries to log: %v", err)
 	}
 
-	if request.LeaderCommit > r.commitIndex {
-		r.commitIndex = numeric.Min(request.LeaderCommit, r.log.LastIndex())
+	// Only the entries up to the last one covered by this request are known to match the log
+	// of the leader: a request does not necessarily reach the end of the leader's log, and
+	// whatever follows in this log may be left over from a previous term.
+	lastNewIndex := request.PrevLogIndex + uint64(len(request.Entries))
+	if index := numeric.Min(request.LeaderCommit, lastNewIndex); index > r.commitIndex {
+		r.commitIndex = index
 		r.applyCond.Broadcast()
 	}
 
@@ -1065,13 +1078,21 @@ func (r *Raft) sendAppendEntries(
 		prevLogTerm = prevEntry.Term
 	}
 
-	entries := make([]*LogEntry, 0, r.log.NextIndex()-nextIndex)
+	// A request carries at most maxAppendEntriesSize bytes of log entries (and at least one entry)
+	// so that it stays below the message size limit of the transport however far behind the
+	// follower is. The remaining entries are sent with the following requests.
+	entries := make([]*LogEntry, 0)
+	size := 0
 	for index := nextIndex; index > r.lastIncludedIndex && index < r.log.NextIndex(); index++ {
 		entry, err := r.log.GetEntry(index)
 		if err != nil {
 			r.logger.Fatalf("failed getting entry from log: error = %v", err)
 		}
+		if len(entries) > 0 && size+len(entry.Data)+logEntryOverhead > maxAppendEntriesSize {
+			break
+		}
 		entries = append(entries, entry)
+		size += len(entry.Data) + logEntryOverhead
 	}
 
 	request := AppendEntriesRequest{
